@@ -86,13 +86,21 @@ CATALOGUE = {
     "square": ("²", lambda m: m, ("int",)),
     "add-inf": ("Þ∞+", lambda m: m, ("int", "str")),
     "less-than-inf": ("Þ∞<", lambda m: m, ("int",)),
+    # the infinite list combined with a FINITE list (the finite side runs out first)
+    "interleave-finite": ("⟨7|8⟩Y", lambda m: max(math.ceil(m / 2), m - 2) + 1, ("int", "str")),
+    "interleave-finite-first": ("⟨7|8⟩$Y", lambda m: max(math.ceil(m / 2), m - 2) + 1, ("int", "str")),
+    "interleave-empty": ("0ʁY", lambda m: m + 1, ("int", "str")),
+    "zip-finite": ("⟨7|8⟩Z", lambda m: m, ("int", "str")),
+    "add-finite": ("⟨7|8⟩+", lambda m: m, ("int", "str")),
+    "zipmap": ("⁽dZ", lambda m: m, ("int", "str")),
+    "zipmap-lambda": ("λ2*;Z", lambda m: m, ("int",)),
 }
 # result items are lists for these (so a following arithmetic entry still has a meaning but different cost): keep
 # compositions to entries whose output items are scalars unless the next entry is shape-agnostic
 SHAPE_AGNOSTIC = {"uniquify", "zip-inf", "zip-self", "interleave", "prefixes", "windows-2", "windows-3", "chunks-3", "chunks-2", "uniquify", "enumerate",
                   "prepend", "append-to-list", "slice-from-3", "behead", "every-2nd", "map-ƛ", "map-M", "map-v", "double", "add-1", "mul-3",
-                  "negate", "add-inf", "flatten"}
-LIST_ITEMS = {"zip-inf", "zip-self", "prefixes", "windows-2", "windows-3", "chunks-3", "chunks-2", "enumerate"}
+                  "negate", "add-inf", "flatten", "interleave-finite", "interleave-finite-first", "interleave-empty", "zip-finite", "zipmap"}
+LIST_ITEMS = {"zip-finite", "zipmap", "zipmap-lambda", "zip-inf", "zip-self", "prefixes", "windows-2", "windows-3", "chunks-3", "chunks-2", "enumerate"}
 DATA_DEPENDENT = {"filter-'", "filter-F", "filter-3", "uniquify"}
 # entries whose output items are pairwise distinct when their input items are (uniquify after them stays linear)
 DISTINCT_ITEMS = {"enumerate", "windows-2", "windows-3", "chunks-3", "chunks-2", "prefixes", "zip-inf", "zip-self", "map-ƛ", "map-M", "map-v",
